@@ -35,6 +35,12 @@ CONSTANTS Variants,        \* set of [prog |-> STRING, on |-> set of optional st
                            \* ./sub/../name).  The content at "out" is then "inp"; the claims are the same: nothing changes
                            \* before success, afterwards the input's bytes sit under the first free backup name.
           InoutInits,      \* the initial directories combined with inout # "no" (output path occupied)
+                           \* The variant also carries dev: "same" = temp directory and output directory on one file system,
+                           \* the writer's final move is a rename (an open handle keeps writing into the moved inode);
+                           \* "cross" = different file systems, the move copies the bytes that are ON DISK and unlinks the
+                           \* source (what a still open handle has buffered is lost).  The temp file of a handle that is still
+                           \* open has content "buffered" (some prefix is on disk, the tail is in the handle's buffer).
+          DevInits,        \* the initial directories combined with dev = "cross"
           NBk,             \* backup names modelled per target: #name.1# .. #name.NBk#
           Inits,           \* set of [out |-> BOOLEAN, bk |-> SUBSET 1..NBk, link |-> BOOLEAN]: is there a file at the
                            \* output path / which backup names exist / is the output path a symbolic link to a regular file
@@ -51,6 +57,8 @@ CONSTANTS Variants,        \* set of [prog |-> STRING, on |-> set of optional st
           DevBackupCount,      \* deviation: backup index = number of existing backups + 1 instead of the first free index
           DevInplaceInput,     \* deviation: when the output path holds an input of the run the file is updated in place
                                \* (opened directly: no temp file, no backup) (seed3-C20-2)
+          DevMoveBeforeClose,  \* deviation: gen_params flushes the writer inside the `with` block, before the handle is closed
+                               \* (seed5-C20-1); refutes SuccessState only for dev = "cross"
           DevRouteDiscard      \* deviation: before the flush the program drops every queued file whose destination is not
                                \* literally its own spelling of the output path; the writer stores the path with the directory
                                \* part resolved, so through a symlinked directory the program drops its own file
@@ -97,7 +105,7 @@ InitFs(ini, v) ==
 (* ------------------------------------------------------------------ *)
 Optional == {"dsdna", "split", "coords", "grid", "macro_file"}
 Base(prog) ==
-  CASE prog = "gen_params" -> <<"read_ff", "graph", "dsdna", "map", "links", "mods", "missing", "open", "write", "flush">>
+  CASE prog = "gen_params" -> <<"read_ff", "graph", "dsdna", "map", "links", "mods", "missing", "open", "write", "close", "flush">>
     [] prog = "gen_coords" -> <<"read_top", "preprocess", "check", "split", "coords", "build_file", "start", "grid",
                                 "templates", "ligands", "cycles", "build", "split_lig", "backmap", "convert",
                                 "open", "write", "flush">>
@@ -107,12 +115,15 @@ Order(prog) ==
   IF prog = "gen_seq"
   THEN (IF DevSeqOpenEarly THEN <<"macro_file", "macro_str", "popen", "graph", "termini", "labels", "to_json", "pwrite">>
                            ELSE Base(prog))
+  ELSE IF prog = "gen_params"
+  THEN (IF DevFlushEarly THEN <<"read_ff", "graph", "dsdna", "map", "links", "mods", "missing", "open", "flush", "write", "close">>
+        ELSE IF DevMoveBeforeClose THEN SwapLastTwo(Base(prog)) ELSE Base(prog))
   ELSE (IF DevFlushEarly THEN SwapLastTwo(Base(prog)) ELSE Base(prog))
 Stages(v) == SelectSeq(Order(v.prog), LAMBDA s : s \notin Optional \/ s \in v.on)
 StageSet(v) == {Stages(v)[i] : i \in 1..Len(Stages(v))}
 NextStage == IF pc < Len(Stages(var)) THEN Stages(var)[pc + 1] ELSE "-"
 Completed == {Stages(var)[i] : i \in 1..pc}
-Special == {"open", "write", "flush", "popen", "pwrite"}
+Special == {"open", "write", "close", "flush", "popen", "pwrite"}
 
 (* ------------------------------------------------------------------ *)
 (* I-layer actions                                                    *)
@@ -121,6 +132,7 @@ Init == /\ run = 1
         /\ var \in Variants
         /\ target = "out"
         /\ \E ini \in Inits : /\ (var.route = "plain" \/ ini \in RouteInits)
+                              /\ (var.dev = "same" \/ ini \in DevInits)
                               /\ (var.inout = "no" \/ ini \in InoutInits)
                               /\ fs = InitFs(ini, var)
         /\ fs0 = fs
@@ -165,9 +177,20 @@ SetContent(c) == IF NextStage = "write" /\ HasEntry(target)
 WriteBegin == /\ Running /\ sub = "idle" /\ NextStage \in {"write", "pwrite"}
               /\ SetContent(PartC) /\ sub' = "part" /\ Micro(NextStage)
               /\ UNCHANGED <<run, var, target, fs0, cur, loose, pc, idx, status>>
+\* gen_params: write_molecule_itp returns with the handle still open (closed by the end of the `with` block = stage "close");
+\* gen_coords: write_gro opens and closes the handle itself
 WriteEnd ==   /\ Running /\ sub = "part"
-              /\ SetContent(NewC) /\ sub' = "idle" /\ pc' = pc + 1 /\ Done(NextStage)
+              /\ SetContent(IF var.prog = "gen_params" THEN "buffered" ELSE NewC)
+              /\ sub' = "idle" /\ pc' = pc + 1 /\ Done(NextStage)
               /\ UNCHANGED <<run, var, target, fs0, cur, loose, idx, status>>
+\* closing the handle puts the buffered tail where the handle's inode is: the queued temp file, or (after a rename) the target;
+\* after a copy-and-unlink the inode is gone and the tail with it
+Closed(cn) == IF cn = "buffered" THEN NewC ELSE cn
+CloseHandle == /\ Running /\ sub = "idle" /\ NextStage = "close"
+               /\ queue' = [i \in 1..Len(queue) |-> [queue[i] EXCEPT !.content = Closed(@)]]
+               /\ fs' = [p \in AllPaths |-> Closed(fs[p])]
+               /\ pc' = pc + 1 /\ Done("close")
+               /\ UNCHANGED <<run, var, target, fs0, cur, loose, sub, idx, status>>
 
 \* DeferredFileWriter.write(): while open_files: popleft; _write_file
 Qeff == IF DevRouteDiscard /\ var.route = "symdir" THEN <<>> ELSE queue
@@ -195,13 +218,13 @@ FlushBackup == /\ Running /\ sub = "backup"
                /\ sub' = "move" /\ Micro("flush")
                /\ UNCHANGED <<run, var, target, fs0, queue, cur, loose, pc, idx, status>>
 FlushMove == /\ Running /\ sub = "move"
-             /\ fs' = [fs EXCEPT ![cur.target] = cur.content]
+             /\ fs' = [fs EXCEPT ![cur.target] = IF cur.content = "buffered" /\ var.dev = "cross" THEN PartC ELSE cur.content]
              /\ IF queue = <<>>
                 THEN /\ cur' = Nil /\ sub' = "idle" /\ pc' = pc + 1 /\ Done("flush") /\ UNCHANGED <<queue, idx>>
                 ELSE /\ cur' = Head(queue) /\ queue' = Tail(queue) /\ sub' = "find" /\ idx' = 0 /\ pc' = pc /\ Micro("flush")
              /\ UNCHANGED <<run, var, target, fs0, loose, status>>
 
-StageStep == Work \/ OpenDeferred \/ PlainOpen \/ WriteBegin \/ WriteEnd \/ FlushBegin \/ FlushFind \/ FlushBackup \/ FlushMove
+StageStep == Work \/ OpenDeferred \/ PlainOpen \/ WriteBegin \/ WriteEnd \/ CloseHandle \/ FlushBegin \/ FlushFind \/ FlushBackup \/ FlushMove
 
 \* an exception leaves the program: before a stage, after a stage, or inside serialisation / commit
 CrashOK(pt) == IF Runs = 1 THEN TRUE ELSE IF run = 1 THEN pt \in Crash1 ELSE pt \in Crash2
@@ -214,10 +237,13 @@ Crash(s, w) ==
      \/ w = "mid"    /\ sub = "move" /\ s = "flush" /\ s = NextStage
   /\ CrashOK([stage |-> s, when |-> w])
   /\ status' = "crashed"
-  /\ loose' = IF cur # Nil THEN Append(loose, cur.content) ELSE loose
+  /\ loose' = IF cur # Nil THEN Append(loose, Closed(cur.content)) ELSE loose
   /\ cur' = Nil
+  \* the exception leaves the `with` block: an open handle is closed on the way out
+  /\ queue' = [i \in 1..Len(queue) |-> [queue[i] EXCEPT !.content = Closed(@)]]
+  /\ fs' = [p \in AllPaths |-> Closed(fs[p])]
   /\ last' = [kind |-> "crash", stage |-> s, when |-> w]
-  /\ UNCHANGED <<run, var, target, fs0, fs, queue, pc, sub, idx>>
+  /\ UNCHANGED <<run, var, target, fs0, pc, sub, idx>>
 AnyCrash == \E s \in StageSet(var), w \in {"before", "after", "mid", "inside"} : Crash(s, w)
 
 Finish == /\ Running /\ sub = "idle" /\ pc = Len(Stages(var)) /\ run = Runs
